@@ -91,7 +91,9 @@ def gen_rules(rnd, svcnames):
         if rnd.random() < 0.4:
             r["address"] = gen_rule_address(rnd)
         if rnd.random() < 0.3:
-            r["username"] = rnd.choice(["joe", "j*", "~*", "*", "?oe", "id*", "j[ao]e", "op[0-9]", "[~]joe", "u\\*r", "[!~]*"])
+            r["username"] = rnd.choice(["joe", "j*", "~*", "*", "?oe", "id*", "j[ao]e", "op[0-9]", "[~]joe", "u\\*r", "[!~]*",
+                                        # at the size of the user-name field (USERLEN 10): the last character decides
+                                        "tencharsid", "ninechars", "?????????z", "ninechar[st]", "*yz"])
         if rnd.random() < 0.3:
             r["hostname"] = rnd.choice(["*.example.org", "trusted.example.org", "*", "h?st*", "*.net", "gw[12].example.org",
                                         "dotted\\.example.net", "[a-c]*.org", "h[!0-9]st.net", "star\\*.org"])
@@ -720,7 +722,7 @@ class Gen:
                 op["inst"] = r.choice(["prev", "prev", "prev:1", "prev:2", "prev:5"])
             elif f == "xr_forged":
                 op["inst"] = "forged:" + r.choice(["nounderscore", "trail", "nonhex", "empty", "serial+1", "serial-1",
-                                                   "otherid", "under2", "noserial", "serial-trunc", "serial-extend", "id-extend"])
+                                                   "otherid", "under2", "noserial", "serial-trunc", "serial-extend", "id-extend", "id-garbage", "id-garbage"])
             elif f == "xr_unknown_svc":
                 op["svc"] = r.choice(["unknown.example.org", op["svc"] + ".", op["svc"][:-1], op["svc"].swapcase()])
             elif f == "xr_malformed":
@@ -919,6 +921,11 @@ def forge(tag, how, w, cid):
         return tag + "0"
     if how == "id-extend":
         return a + "1_" + b      # (never a + "0": "00_4" is read as id 0 by a lenient number parser - rule 3)
+    if how == "id-garbage":
+        # something that is no hex digit between the id and the separator (not in front of the id: a sign, blanks
+        # or "0x" there are read as part of the number by a lenient parser - rule 3, as for "id-extend")
+        g = ["zz", "..", "+", " ", "x", "g", "-"][(len(a) + len(b) + (cid or 0)) % 7]
+        return a + g + "_" + b
     if how == "otherid":
         others = [c for c in sorted(w.live) if c != cid]
         o = others[0] if others else 12345
